@@ -186,6 +186,16 @@ theorem fastgo_imports_order_sensitive :
     emit importLine [([102, 109, 116], []), ([117, 110, 115, 97, 102, 101], [])] ≠
     emit importLine [([117, 110, 115, 97, 102, 101], []), ([102, 109, 116], [])] := by decide
 
+/-- … and with go/format on: two groups, each sorted by path — one result for every iteration order. -/
+theorem fastgo_imports_formatted_perm (es₁ es₂ : List (Bytes × Bytes)) (hp : es₁.Perm es₂)
+    (hn : (es₁.map Prod.fst).Nodup) : importsFormatted es₁ = importsFormatted es₂ :=
+  importsFormatted_perm hp hn
+
+/-- without it the block follows the iteration order (`fmt`, `unsafe` again, as (path, alias)). -/
+theorem fastgo_imports_unformatted_order_sensitive :
+    importsUnformatted [([102, 109, 116], []), ([117, 110, 115, 97, 102, 101], [])] ≠
+    importsUnformatted [([117, 110, 115, 97, 102, 101], []), ([102, 109, 116], [])] := by decide
+
 /-! ## the inventory -/
 
 inductive Cls
